@@ -61,12 +61,12 @@ type Call struct {
 
 type Store struct {
 	coreiface.CoreAPI
-	slots  []slot
-	Calls  []Call
-	Adds   []cid.Cid // order of first-time block writes
+	slots   []slot
+	Calls   []Call
+	Adds    []cid.Cid // order of first-time block writes
 	Removed []cid.Cid // blocks deleted through Dag().Remove
-	Faults map[string]Fault
-	Subst  map[string][]byte // replacement bytes served for a CID (malformed-block placement)
+	Faults  map[string]Fault
+	Subst   map[string][]byte // replacement bytes served for a CID (malformed-block placement)
 	// FailAddAt, when >0, makes the k-th (1-based) Add call fail with ErrCrash and every later one too.
 	FailAddAt int
 	addCalls  int
@@ -271,6 +271,7 @@ func (d dagSvc) GetMany(ctx context.Context, cs []cid.Cid) <-chan *format.NodeOp
 	close(out)
 	return out
 }
+
 // Remove really deletes the block (a store is not grow-only just because the library never used to delete).
 //
 //go:norace
